@@ -275,6 +275,10 @@ def run(ctx, chk):
              "false - in particular no capacity grown before the memory behind it was obtained (shared with C06.atomic / C12.atomic)")
     from props.c06 import check_atomic as _cat
     _cat(chk, "C20.atomic", prog, _Ocf.PathCache(prog, eff))
+    chk.rule("C20.signed-compare", "no 64-bit comparison in the library is signed: sizes, lengths, counts, indices and remainders are compared as the unsigned "
+             "quantities they are (a size of 2^63 or more is still a size)")
+    import rules as _rsc
+    _rsc.check_signed_compare(chk, "C20.signed-compare", prog)
     chk.exhaustive = True
 
 
